@@ -14,6 +14,7 @@ import (
 	"fmt"
 	"os"
 	"strings"
+	"time"
 
 	"github.com/mgtv-tech/redis-GunYu/config"
 	"github.com/mgtv-tech/redis-GunYu/pkg/cluster"
@@ -85,6 +86,19 @@ func main() {
 		}
 		return nil, fakeredis.Proceed
 	}
+	// "late": the store executes the script at once and answers after the deadline the caller set for the call
+	const callDeadline, lateBy = 15 * time.Millisecond, 50 * time.Millisecond
+	var lateDone chan struct{}
+	srv.Hold = func(connID int, name string, args [][]byte) <-chan struct{} {
+		if name == "eval" && mode == "late" {
+			mode = ""
+			ch := make(chan struct{})
+			lateDone = ch
+			time.AfterFunc(lateBy, func() { close(ch) })
+			return ch
+		}
+		return nil
+	}
 	srv.AfterExec = func(connID int, name string, args [][]byte) fakeredis.Action {
 		if name == "eval" && mode == "lost" {
 			mode = ""
@@ -124,6 +138,13 @@ func main() {
 			}
 			srv.Unlock()
 			res := ""
+			ctx := ctx
+			if o.F == "late" {
+				// the command layer bounds every election call (lease renew interval, graceful stop timeout)
+				c2, cancel := context.WithTimeout(ctx, callDeadline)
+				defer cancel()
+				ctx = c2
+			}
 			switch o.Op {
 			case "campaign":
 				role, err := c.el.Campaign(ctx)
@@ -154,7 +175,16 @@ func main() {
 			default:
 				hx.Fatal("unknown op %q", o.Op)
 			}
-			if o.F != "ok" {
+			if o.F == "late" {
+				// the late reply reaches the instance before it calls again
+				srv.Lock()
+				ld := lateDone
+				srv.Unlock()
+				if ld != nil {
+					<-ld
+				}
+				time.Sleep(5 * time.Millisecond)
+			} else if o.F != "ok" {
 				connect(o.I) // the broken connection is replaced, as a restarted instance would
 			}
 			holder, rem := "none", 0
@@ -223,8 +253,12 @@ func main() {
 				ops = append(ops, op{"resign", id, "ok"})
 			case x < 90:
 				ops = append(ops, op{"campaign", id, "lost"})
-			case x < 95:
+			case x < 94:
 				ops = append(ops, op{"campaign", id, "fail"})
+			case x < 96:
+				ops = append(ops, op{[]string{"campaign", "renew"}[r.Intn(2)], id, "late"})
+			case x < 98:
+				ops = append(ops, op{"resign", id, "late"})
 			default:
 				ops = append(ops, op{"resign", id, "lost"})
 			}
